@@ -9,6 +9,7 @@ From SV Require Import Fmt.FgdBinEnt Fmt.FgdBinEntProofs Fmt.FgdLine Fmt.FgdLine
 From SV Require Import Fmt.FgdHead Fmt.FgdHeadProofs Fmt.FgdEntity Fmt.FgdEntityProofs.
 From SV Require Import Fmt.FgdTypeText Fmt.FgdTypeTextProofs SM.FgdBlocks SM.FgdBlocksProofs Fmt.FgdKindKw Fmt.FgdKindKwProofs.
 From SV Require Import SM.FgdCopyShare SM.FgdCopyShareProofs.
+From SV Require Import Fmt.FgdBare.
 From SV Require Import Gen.FgdConsts_gen.
 Import ListNotations.
 Open Scope N_scope.
@@ -1014,3 +1015,25 @@ Proof.
   - intros. apply build_with_places_every_entity; assumption.
   - rewrite M. unfold multi_lazy_equals_eager_at. intros. apply multi_lazy_equals_eager; assumption.
 Qed.
+
+(** Round 6.  Defaults written WITHOUT quotes (Fmt/FgdBare.v): `TStr (default_written k)` of the line model presupposes that the text
+    KVDef.export writes is lexed as one token equal to the default.  For a quoted default that is the escape model; for a bare one it
+    holds for every test that passes [bare_test_ok] (a character set all of whose members may start a bare word), on ALL strings. *)
+Theorem c16_bare_default_is_one_token :
+  forall t s, bare_test_ok t = true -> writes_bare t s = true -> one_token s = true.
+Proof. exact bare_written_is_one_token. Qed.
+(** ... in particular for the test read off today's source *)
+Theorem c16_bare_default_of_source_is_one_token :
+  bare_test_ok gen_bare_test = true -> forall s, writes_bare gen_bare_test s = true -> one_token s = true.
+Proof. intros H s. apply bare_written_is_one_token. exact H. Qed.
+(** the nearby wrong shape `try: int(default_str)`: the computed witness is `7 ` (written bare, read back as `7`); `+7` and ` 7` are
+    written bare too and are not one token, `1_0` and `--7` are harmless; the digits-and-minus test writes none of them bare *)
+Example c16_bare_int_call_refuted :
+  bare_witness BIntCall = Some [55; 32]
+  /\ writes_bare BIntCall [43; 55] = true /\ one_token [43; 55] = false /\ lex_word [43; 55] = None
+  /\ writes_bare BIntCall [32; 55] = true /\ one_token [32; 55] = false
+  /\ writes_bare BIntCall [49; 95; 48] = true /\ one_token [49; 95; 48] = true
+  /\ writes_bare (BChars digits_minus) [45; 45; 55] = true /\ one_token [45; 45; 55] = true
+  /\ writes_bare (BChars digits_minus) [43; 55] = false /\ writes_bare (BChars digits_minus) [32; 55] = false
+  /\ bare_witness (BChars digits_minus) = None.
+Proof. repeat split; vm_compute; reflexivity. Qed.
